@@ -28,6 +28,10 @@ pub fn rustc_settings(t: &mut Tape, reg: &PortableRegistry) -> SettingsSpec {
         "Debug".into(),
         "Clone".into(),
     ];
+    // as subxt configures it: without `dumb_trait_bound` parity-scale-codec's derive puts the field types
+    // into the where clause, which overflows (rust-lang/rust#47032) for every recursive generic type whose
+    // self reference is written with a qualified path - and the generator always qualifies paths
+    s.global_attrs.push("#[codec(dumb_trait_bound)]".into());
     if t.flag() {
         s.global_attrs.push("#[allow(dead_code)]".into());
     }
@@ -46,6 +50,9 @@ pub fn rustc_gen_opts() -> GenOpts {
     let mut o = GenOpts::full();
     o.ord_keys_only = true;
     o.manual_prims = false;
+    // parity-scale-codec implements neither Encode nor Decode for `char`: such registries cannot be
+    // compiled with codec derives whatever the generator emits
+    o.chars = false;
     o
 }
 
@@ -223,6 +230,32 @@ impl<'a> Enc<'a> {
                 Ok(())
             }
             TypeDef::Composite(c) => {
+                // std types with value constraints beyond their SCALE shape
+                let prelude = if ty.path.segments.len() == 1 { ty.path.segments[0].as_str() } else { "" };
+                if prelude == "Duration" {
+                    out.extend_from_slice(&t.u64().to_le_bytes());
+                    out.extend_from_slice(&((t.u64() % 1_000_000_000) as u32).to_le_bytes());
+                    return Ok(());
+                }
+                if prelude.starts_with("NonZero") && c.fields.len() == 1 {
+                    let start = out.len();
+                    self.enc(c.fields[0].ty.id, t, depth + 1, out)?;
+                    if out[start..].iter().all(|b| *b == 0) {
+                        out[start] = 1;
+                    }
+                    return Ok(());
+                }
+                if matches!(prelude, "BTreeMap" | "BTreeSet" | "BinaryHeap") && c.fields.len() == 1 {
+                    // at most one element: decoding sorts / heapifies, so longer inputs need not re-encode identically
+                    if let Some(TypeDef::Sequence(s)) = self.reg.resolve(c.fields[0].ty.id).map(|t| &t.type_def) {
+                        let n = if deep || self.h[s.type_param.id as usize].is_none() { 0 } else { t.choose(2) };
+                        compact_u128(n as u128, out);
+                        for _ in 0..n {
+                            self.enc(s.type_param.id, t, depth + 1, out)?;
+                        }
+                        return Ok(());
+                    }
+                }
                 for f in &c.fields {
                     self.enc(f.ty.id, t, depth + 1, out)?;
                 }
@@ -468,6 +501,103 @@ pub fn run_batch(tag: &str, cases: &[ProbeCase], run: bool) -> Result<u64, Failu
     Ok(checks)
 }
 
+/// some item passes a generic parameter into a position that needs `HasCompact` without having a
+/// `#[codec(compact)]` field of that parameter itself (the derive then has no bound to offer)
+fn passes_has_compact_param(gm: &crate::genmod::GMod) -> bool {
+    use crate::genmod::*;
+    use std::collections::BTreeSet;
+    let fields_of = |item: &GItem| -> Vec<GField> {
+        match &item.kind {
+            GKind::Struct(f) => f.list().to_vec(),
+            GKind::Enum(vs) => vs.iter().flat_map(|v| v.fields.list().to_vec()).collect(),
+        }
+    };
+    // direct requirement: compact field typed by the parameter
+    let mut direct: BTreeSet<(Vec<String>, usize)> = BTreeSet::new();
+    for (p, item) in &gm.items {
+        for f in fields_of(item) {
+            if f.compact {
+                let t = tokens_nospace(&f.ty);
+                if let Some(j) = item.generics.iter().position(|g| *g == t) {
+                    direct.insert((p.clone(), j));
+                }
+            }
+        }
+    }
+    let mut req = direct.clone();
+    fn passes(t: &syn::Type, g: &str, root: &str, req: &BTreeSet<(Vec<String>, usize)>) -> bool {
+        use syn::Type as T;
+        match t {
+            T::Paren(p) => passes(&p.elem, g, root, req),
+            T::Group(p) => passes(&p.elem, g, root, req),
+            T::Tuple(tt) => tt.elems.iter().any(|e| passes(e, g, root, req)),
+            T::Array(a) => passes(&a.elem, g, root, req),
+            T::Path(tp) => {
+                let idents = path_idents(&tp.path);
+                let args = last_args(&tp.path).unwrap_or_default();
+                let is_item = tp.path.leading_colon.is_none() && idents.first().map(|s| s == root).unwrap_or(false);
+                args.iter().enumerate().any(|(j, a)| {
+                    (is_item && req.contains(&(idents.clone(), j)) && tokens_nospace(a) == g) || passes(a, g, root, req)
+                })
+            }
+            _ => false,
+        }
+    }
+    loop {
+        let mut changed = false;
+        for (p, item) in &gm.items {
+            for (j, g) in item.generics.iter().enumerate() {
+                if req.contains(&(p.clone(), j)) {
+                    continue;
+                }
+                if fields_of(item).iter().any(|f| passes(&f.ty, g, &gm.root, &req)) {
+                    req.insert((p.clone(), j));
+                    changed = true;
+                }
+            }
+        }
+        if !changed {
+            break;
+        }
+    }
+    req.iter().any(|r| !direct.contains(r))
+}
+
+fn generic_ord_key(gm: &crate::genmod::GMod) -> bool {
+    use crate::genmod::*;
+    fn walk(t: &syn::Type, generics: &[String]) -> bool {
+        use syn::Type as T;
+        match t {
+            T::Paren(p) => walk(&p.elem, generics),
+            T::Group(p) => walk(&p.elem, generics),
+            T::Tuple(tt) => tt.elems.iter().any(|e| walk(e, generics)),
+            T::Array(a) => walk(&a.elem, generics),
+            T::Path(tp) => {
+                let last = tp.path.segments.last().map(|s| s.ident.to_string()).unwrap_or_default();
+                let args = last_args(&tp.path).unwrap_or_default();
+                if matches!(last.as_str(), "BTreeMap" | "BTreeSet" | "BinaryHeap") && tp.path.leading_colon.is_some() {
+                    if let Some(k) = args.first() {
+                        let mut ids = vec![];
+                        bare_idents(k, &mut ids);
+                        if ids.iter().any(|i| generics.contains(i)) {
+                            return true;
+                        }
+                    }
+                }
+                args.iter().any(|a| walk(a, generics))
+            }
+            _ => false,
+        }
+    }
+    gm.items.values().any(|item| {
+        let fields: Vec<&GField> = match &item.kind {
+            GKind::Struct(f) => f.list().iter().collect(),
+            GKind::Enum(vs) => vs.iter().flat_map(|v| v.fields.list().iter()).collect(),
+        };
+        fields.iter().any(|f| walk(&f.ty, &item.generics))
+    })
+}
+
 /// generate `n` cases from tapes derived from `seed`
 pub fn make_cases(seed: u64, stream: u64, n: usize, cf_only: bool, encodings: usize) -> (Vec<ProbeCase>, BTreeMap<String, u64>) {
     let mut out = vec![];
@@ -504,6 +634,29 @@ pub fn make_cases(seed: u64, stream: u64, n: usize, cf_only: bool, encodings: us
             res = run_typegen(&reg, &spec);
         }
         let GenResult::Ok(o) = res else { continue };
+        // known finding c02:param-only-used-recursively: excluded by construction, counted
+        if let Err(e) = crate::static_check::StaticCtx::new(&o.gm, &spec).check_module() {
+            if e.contains("only used recursively") {
+                *counters.entry("excluded_known_param_only_used_recursively".into()).or_insert(0) += 1;
+                continue;
+            }
+            if e.contains("on a boxed field") {
+                *counters.entry("excluded_known_compact_attr_on_boxed_field".into()).or_insert(0) += 1;
+                continue;
+            }
+        }
+        // `BTreeMap<_0, ..>` / `BTreeSet<_0>` / `BinaryHeap<_0>` need `_0: Ord`, a bound the generated code
+        // cannot carry (downstream substitutes these collections): outside the compile-capable settings
+        if generic_ord_key(&o.gm) {
+            *counters.entry("excluded_generic_key_needs_ord_bound".into()).or_insert(0) += 1;
+            continue;
+        }
+        // `Outer<_1>` passing `_1` into a type that needs `_1: HasCompact` without using it compactly itself
+        // would need a trait bound on the generated item, which the generator never writes
+        if passes_has_compact_param(&o.gm) {
+            *counters.entry("excluded_nested_has_compact_bound".into()).or_insert(0) += 1;
+            continue;
+        }
         let settings = spec.build();
         let mut checks = vec![];
         if encodings > 0 {
@@ -528,4 +681,33 @@ pub fn make_cases(seed: u64, stream: u64, n: usize, cf_only: bool, encodings: us
         });
     }
     (out, counters)
+}
+
+/// the whole Polkadot module, compiled with codec derives (compile-only)
+pub fn polkadot_case() -> Result<ProbeCase, Failure> {
+    let reg = crate::metadata::polkadot();
+    let mut s = SettingsSpec::default();
+    s.root = "runtime_types".into();
+    s.compact_as = Some(COMPACT_AS_PATH.into());
+    s.global_derives = vec![
+        "::vsupport::codec::Encode".into(),
+        "::vsupport::codec::Decode".into(),
+        "Debug".into(),
+        "Clone".into(),
+    ];
+    s.global_attrs.push("#[codec(dumb_trait_bound)]".into());
+    s.substitutes.push(("bitvec::order::Lsb0".into(), "::vsupport::bits::Lsb0".into()));
+    s.substitutes.push(("bitvec::order::Msb0".into(), "::vsupport::bits::Msb0".into()));
+    // keys of chain types are not Ord: the collections are substituted, as downstream users do
+    s.substitutes.push(("BTreeMap".into(), "::vsupport::KeyedVec".into()));
+    s.substitutes.push(("BTreeSet".into(), "::vsupport::PlainVec".into()));
+    match run_typegen(reg, &s) {
+        GenResult::Ok(o) => Ok(ProbeCase {
+            name: "polkadot".into(),
+            tokens: o.tokens.clone(),
+            checks: vec![],
+            decoded: json!({"polkadot": "full registry", "settings": s.to_json()}),
+        }),
+        _ => Err(Failure::new("the Polkadot registry does not generate").sig("rustc:polkadot-generation")),
+    }
 }
